@@ -39,7 +39,7 @@ def id_bytes(order):
 
 def run(chk, program, tier):
     for r, t in (('WF-LEN13', 'EByte packets are 13 bytes'), ('WF-LEN20', 'USB packets are 20 bytes'), ('WF-LAYOUT', 'writer and reader agree on positions'),
-                 ('WF-CSUM', 'checksum position, coverage, reduction'), ('WF-LINE', 'Yacht Devices line shape'), ('WF-ACT', 'Actisense token layout'), ('SER-DELIVER', 'serial receive path hands every complete 20-byte window to the decoder'),
+                 ('WF-CSUM', 'checksum position, coverage, reduction'), ('WF-LINE', 'Yacht Devices line shape'), ('WF-ACT', 'Actisense token layout'), ('ID-USE', 'writers build the identifier of the message they write'), ('FP-LEN', 'fast-packet frames have 1..8 bytes'), ('FP-COUNT', 'frames carry the payload once, in order'), ('FP-HDR', 'frame header bytes'), ('FP-SEQ', 'sequence counter'), ('SER-DELIVER', 'serial receive path hands every complete 20-byte window to the decoder'),
                  ('BUF-PROGRESS', 'serial receive path removes exactly the processed window'), ('SER-CONST', 'serial marker / length constants agree with the encoder')):
         chk.rule(r, t)
     feas = feasible_lengths(program)
@@ -158,6 +158,12 @@ def run(chk, program, tier):
         chk.check(isinstance(data, A.ABytes) and data.items == list(reversed(payload.items)), 'WF-ACT', f"actisense::payload@L={L}", file=DEC, line=0,
                   expected='payload bytes (reversed for the shared decode path)', found=f"{len(data.items) if isinstance(data, A.ABytes) else data!r} bytes")
     chk.floor('lengths', len(feas), 7)
+    # the identifier each writer puts on the wire is that of the message being written (C05 ID-USE)
+    from . import c05
+    c05.id_use(chk, program)
+    # the frames the fast-packet segmenter hands to the writers (C03 FP-LEN / FP-COUNT / FP-HDR on a reduced sweep: lengths 0..30 and the 7-multiples)
+    from . import c03
+    c03.segmenter_sweep(chk, program, sorted(set(list(range(0, 31)) + [34, 35, 41, 42, 62, 63, 216, 217, 222, 223])), (0, 5))
     # the receive paths that re-frame the byte stream: serial windows (marker, length, every complete window decoded, exact consumption)
     from .c16 import _Sub
     r = K.buf_rules(_Sub(chk, {'SER-DELIVER', 'BUF-PROGRESS'}), program)
